@@ -93,6 +93,19 @@ class _Logging:
             LOG.append(("read", object.__getattribute__(self, "name"), name))
         return object.__getattribute__(self, name)
 
+    @property
+    def lazy(self):
+        """the tags, produced lazily: a fresh one-shot generator that logs every element it hands out"""
+        name = object.__getattribute__(self, "name")
+        tags = object.__getattribute__(self, "tags")
+
+        def gen():
+            for i, v in enumerate(tags):
+                if _ARMED[0]:
+                    LOG.append(("pull", "inner:" + name, i))
+                yield v
+        return gen()
+
 
 @dataclass(repr=False, eq=False)
 class LoggedItem(_Logging, Item):
